@@ -58,8 +58,8 @@ def _from_array(nextx, nexty, _mv=_mv, dtype=np.intp):
         r_ds, c_ds = np.intp(r1 - 1), np.intp(c1 - 1)
         outside = r_ds >= nrow or c_ds >= ncol or r_ds < 0 or c_ds < 0
         idx_ds = c_ds + r_ds * ncol
-        # pit or outside or ds cell is mv
-        if pit or outside or nextx_flat[idx_ds] == _mv:
+        # pit or outside or ds cell is mv or cell points at itself
+        if pit or outside or nextx_flat[idx_ds] == _mv or idx_ds == idx0:
             pits_lst.append(idx0)
             idxs_ds[idx0] = idx0
         else:
